@@ -1681,6 +1681,8 @@ def o_wrapper_exceptions(ctx, case, ans=None):
     if ans is None:
         ans = ctx.driver('C11', wrapper_exc_reqs(case))
     tk = ans[0].split(' ')
+    ctx.count('branch:wrapE:' + ('no-exception' if res.get('err') != '_Boom' else 'objective-raises' if case.get('func_raises')
+                                 else 'first-call-raises' if len(state['calls']) == 1 else 'later-call-raises'))
     raised_at = [k for k, a in enumerate(case['script']) if a.get('raise')]
     if res.get('err') == '_Boom':
         if tk[0] == 'err' and tk[1] == 'raised':
@@ -1883,15 +1885,20 @@ def gen_cobyla_case(rng):
 def linspace_reqs(case):
     lo, hi, st = case['p2lo'], case['p2hi'], case['p2step']
     n = int((hi - lo) / st) + 1
+    if case.get('n') is not None:     # directed: linspace alone with a given number of points
+        return ['count %s %s %s' % (f2b(0.0), f2b(float(case['n'] - 1)), f2b(1.0)), 'linspace %s %s %d' % (f2b(lo), f2b(hi), case['n'])]
     return ['count %s %s %s' % (f2b(lo), f2b(hi), f2b(st)), 'linspace %s %s %d' % (f2b(lo), f2b(hi), n)]
 
 
 def o_linspace(ctx, case, ans=None):
     """numpy.linspace / int((hi-lo)/step)+1 as modelled (used for the scan values) — model vs numpy."""
     lo, hi, st = case['p2lo'], case['p2hi'], case['p2step']
-    n = int((hi - lo) / st) + 1
+    n = int((hi - lo) / st) + 1 if case.get('n') is None else int(case['n'])
     if ans is None:
         ans = ctx.driver('C11', linspace_reqs(case))
+    with np.errstate(all='ignore'):
+        d = (hi - lo) / (n - 1) if n > 1 else None
+    ctx.count('branch:linspace:' + ('single-point' if n <= 1 else 'step-underflows-to-zero' if (d == 0 and hi != lo) else 'regular'))
     if int(ans[0]) != n:
         return 'scan count: python %d, model %s' % (n, ans[0])
     got = parse_flist(ans[1])
@@ -2147,6 +2154,101 @@ def _classify(res):
 
 # --------------------------------------------------------------------------------------------------
 
+# ---- which branches of the modelled functions a run went through (an un-hit branch is an untied branch)
+
+ALL_BRANCHES = [
+    'nr:error-initial-below-ns_min', 'nr:exit-boundary-lower', 'nr:exit-boundary-upper', 'nr:exit-max_steps', 'nr:exit-converged',
+    'nr:max_steps=0', 'nr:newtonStep-flat-guard', 'nr:newtonStep-division', 'nr:clip-low', 'nr:clip-high', 'nr:clip-none',
+    'nr:keepGoing-by-step', 'nr:keepGoing-by-slope-only', 'nr:degenerate-ns_min=ns_max', 'nr:boundary-flag-lower-with-upward-step',
+    'scan:later-value-better', 'scan:earlier-value-kept', 'scan:tie-first-kept', 'scan:error-propagates', 'scan:single-value',
+    'linspace:single-point', 'linspace:regular', 'linspace:step-underflows-to-zero',
+    'wrap:error-not-converged', 'wrap:error-nan', 'wrap:clipped-and-re-evaluated', 'wrap:passed-through',
+    'wrap:stop-converged', 'wrap:stop-not-repeatable', 'wrap:stop-max_repetitions', 'wrap:max_repetitions=0',
+    'clip1:above', 'clip1:below', 'clip1:inside',
+    'wrapE:first-call-raises', 'wrapE:later-call-raises', 'wrapE:objective-raises', 'wrapE:no-exception',
+    'functorStep:hit', 'functorStep:no-hit-in-this-case',
+]
+
+
+def _newton(t):
+    with np.errstate(all='ignore'):
+        return F64(0.0) if (t[1] == 0 and t[2] == 0) else -F64(t[1]) / F64(t[2])
+
+
+def nr_branches(ctx, cs, res, obj):
+    """branches of `nr` / `nrLoop` / `scanFold` a case went through, from what the implementation did (it agrees with
+    the model on every such case, else the correspondence has already complained)"""
+    B = lambda b: ctx.count('branch:' + b)   # noqa
+    lo, hi = cs['lo'], cs['hi']
+    (_, ii, jj) = layout(cs)
+    if 'err' in res:
+        if cs['ns0'] < lo:
+            B('nr:error-initial-below-ns_min')
+            if cs['kind'] == 'scan':
+                B('scan:error-propagates')
+        return
+    if cs['kind'] == 'nr':
+        B({-2: 'nr:exit-boundary-lower', -1: 'nr:exit-boundary-upper', 0: 'nr:exit-converged', 1: 'nr:exit-max_steps'}[res['flag']])
+        if cs['max_steps'] == 0:
+            B('nr:max_steps=0')
+        if lo == hi:
+            B('nr:degenerate-ns_min=ns_max')
+            if res['flag'] == -2 and res['step'] > 0:
+                B('nr:boundary-flag-lower-with-upward-step')
+    calls = obj.calls
+    thr, tol = constants()['slope_thr'], cs['tol']
+    for k, (x, t) in enumerate(calls):
+        st = _newton(t)
+        if t[1] == 0 and t[2] == 0:
+            B('nr:newtonStep-flat-guard')
+        else:
+            B('nr:newtonStep-division')
+        same_run = k + 1 < len(calls) and (jj is None or calls[k + 1][0][jj] == x[jj])
+        if same_run and not (k + 2 == len(calls) or (jj is not None and calls[k + 2][0][jj] != x[jj])) or (same_run and cs['kind'] == 'nr' and k + 2 < len(calls)):
+            with np.errstate(all='ignore'):
+                raw = F64(x[ii]) + st
+            B('nr:clip-low' if raw < lo else 'nr:clip-high' if raw > hi else 'nr:clip-none')
+            B('nr:keepGoing-by-step' if tol < abs(st) else 'nr:keepGoing-by-slope-only' if abs(t[1]) > thr else 'nr:clip-none')
+    if cs['kind'] == 'scan':
+        pts = _scan_points(cs, obj.llh)
+        if len(pts) == 1:
+            B('scan:single-value')
+        best = None
+        for (p2, ff, fl) in pts:
+            if best is None:
+                best = ff
+            elif ff < best:
+                B('scan:later-value-better')
+                best = ff
+            elif ff == best:
+                B('scan:tie-first-kept')
+            else:
+                B('scan:earlier-value-kept')
+
+
+def wrap_branches(ctx, cs, res, state):
+    B = lambda b: ctx.count('branch:' + b)   # noqa
+    script, mr = cs['script'], int(cs['max_reps'])
+    k = 0
+    while k < mr and (not script[min(k, len(script) - 1)]['conv']) and script[min(k, len(script) - 1)]['rep']:
+        k += 1
+    last = script[min(k, len(script) - 1)]
+    if mr == 0:
+        B('wrap:max_repetitions=0')
+    B('wrap:stop-converged' if last['conv'] else 'wrap:stop-not-repeatable' if not last['rep'] else 'wrap:stop-max_repetitions')
+    xs = _fl(last['x'])
+    if not last['conv']:
+        B('wrap:error-not-converged')
+    elif any(v != v for v in xs):
+        B('wrap:error-nan')
+    else:
+        out = [v < b[0] or v > b[1] for v, b in zip(xs, cs['bounds'])]
+        B('wrap:clipped-and-re-evaluated' if any(out) else 'wrap:passed-through')
+        if any(out):
+            for v, b in zip(xs, cs['bounds']):
+                B('clip1:above' if v > b[1] else 'clip1:below' if v < b[0] else 'clip1:inside')
+
+
 def run(ctx):
     rng = ctx.rng
     c = constants()
@@ -2176,6 +2278,23 @@ def run(ctx):
         cs['ns0'] = cs['lo'] - 1.0 if rng.random() < 0.5 else cs['hi'] + 1.0
         cs['cls'] = 'syn:init-outside'
         cases.append(cs)
+    # directed: degenerate bounds ns_min = ns_max (incl. the flag -2 reported for an upward step), scan whose inner
+    # minimiser raises, scan with one scan value
+    for _ in range(ctx.n(6, 60)):
+        cs = gen_syn_case(rng)
+        cs['hi'] = cs['lo']
+        cs['ns0'] = cs['lo']
+        cs['obj'] = {'shape': 'quad', 'p': [1.0, cs['lo'] + rng.choice([-1.0, 1.0, 0.0]), 0.0]}
+        cs.pop('order', None)
+        cs.pop('forms', None)
+        cs['cls'] = 'syn:degenerate-bounds'
+        cases.append(cs)
+    for _ in range(ctx.n(4, 40)):
+        cs = gen_scan_case(rng)
+        if cs['obj']['shape'] != 'llh':
+            cs['ns0'] = cs['lo'] - 1.0
+            cs['cls'] = 'scan:init-outside'
+            cases.append(cs)
     wraps = [gen_wrap_case(rng) for _ in range(ctx.n(250, 5000))]
 
     # ---- run the implementation, build the model requests
@@ -2191,6 +2310,7 @@ def run(ctx):
         ctx.count('initial:' + ('on-bound' if cs['ns0'] in (cs['lo'], cs['hi']) else 'outside' if not cs['lo'] <= cs['ns0'] <= cs['hi'] else 'inside'))
         if 'err' not in res:
             ctx.count('nr-flag=%d' % res['flag'])
+        nr_branches(ctx, cs, res, obj)
     wruns = []
     for cs in wraps:
         res, state = run_wrapper(cs)
@@ -2198,7 +2318,12 @@ def run(ctx):
         reqs.append(wrap_request(cs, state))
         ctx.count(cs['cls'])
         ctx.count('wrap:raised' if 'err' in res else ('wrap:clipped' if state['fcalls'] else 'wrap:passed-through'))
+        wrap_branches(ctx, cs, res, state)
     lins = [{'p2lo': cs['p2lo'], 'p2hi': cs['p2hi'], 'p2step': cs['p2step']} for cs in cases if cs['kind'] == 'scan'][:ctx.n(30, 300)]
+    # directed: linspace whose step underflows to zero (numpy's denormal branch), one point, zero points
+    lins += [{'p2lo': 0.0, 'p2hi': 5e-324, 'p2step': 1.0, 'n': 5}, {'p2lo': 1.0, 'p2hi': 1.0 + 2 ** -52, 'p2step': 1.0, 'n': 3},
+             {'p2lo': -5e-324, 'p2hi': 5e-324, 'p2step': 1.0, 'n': 7}, {'p2lo': 2.0, 'p2hi': 3.0, 'p2step': 1.0, 'n': 1},
+             {'p2lo': 2.0, 'p2hi': 3.0, 'p2step': 1.0, 'n': 0}, {'p2lo': 2.0, 'p2hi': 3.0, 'p2step': 1.0, 'n': 2}]
     cobs = [gen_cobyla_case(rng) for _ in range(ctx.n(25, 400))]
     # through LLHRatio.maximize with the NR implementations: the model's `maximize` runs on the recorded NR outcome
     mruns = [(cs, res, obj) for (cs, res, obj) in runs if cs['obj']['shape'] == 'llh' and cs['ns0'] >= cs['lo'] and 'err' not in res]
@@ -2350,6 +2475,13 @@ def run(ctx):
                           impl_output={k: v for k, v in res.items() if k != 'status'}, model_output=ans[:400],
                           signature='C11/corr/' + tag, no_failing_input=True)
     ctx.extra['correspondence_disagreements'] = len(suspicious)
+    counts = {b: ctx.counters.get('branch:' + b, 0) for b in ALL_BRANCHES}
+    ctx.extra['counts'] = counts
+    ctx.extra['zero_hit_branches'] = [b for b, n in counts.items() if n == 0]
+    ctx.extra['unreachable_branches_proved'] = ['nr: niter == max_steps after a boundary break (c11_nr_flag_iff_maxsteps)',
+                                                'scan: no scan value with n >= 1 (c11_scan_ok_iff)']
+    if ctx.extra['zero_hit_branches']:
+        ctx.note('model branches not hit in this run: %s' % ', '.join(ctx.extra['zero_hit_branches']))
 
 
 MANIFEST = dict(
